@@ -16,7 +16,7 @@ use refmodel::state::*;
 use refmodel::x509::*;
 use std::sync::{Arc, Mutex};
 
-pub const N_OPS: usize = 16;
+pub const N_OPS: usize = 19;
 
 pub fn op_name(i: usize) -> &'static str {
     [
@@ -36,6 +36,9 @@ pub fn op_name(i: usize) -> &'static str {
         "leaf for the larger RSA key under A",
         "load the RSA key as SHA-512 and sign a request",
         "load the RSA key with algorithm detection and sign a request",
+        "self-sign A's key under another name (a renamed CA)",
+        "leaf under the renamed CA of key A",
+        "CRL under the renamed CA of key A",
     ][i]
 }
 
@@ -48,6 +51,8 @@ pub struct World {
     pub big_key: KeyPair,
     pub ca_a: Certificate,
     pub ca_b: Certificate,
+    /// key A's second certificate: another subject name, another key-identifier method (one key, two issuers)
+    pub ca_a2: Certificate,
     pub csr_der: Vec<u8>,
     /// PKCS#8 of the 2048-bit RSA key, for the operations that LOAD a key (what a loader remembers must not show later)
     pub rsa_der: Vec<u8>,
@@ -61,6 +66,13 @@ fn st_a(kid: KeyIdSpec) -> CertState {
     st.key_id = kid;
     st.use_aki = true;
     st.serial = Some(vec![0xa]);
+    st
+}
+
+fn st_a2() -> CertState {
+    let mut st = st_a(KeyIdSpec::Sha512);
+    st.dn = DnSpec(vec![(DnTypeSpec::Cn, StrKind::Printable, "CA A renamed".into()), (DnTypeSpec::O, StrKind::Utf8, "A org".into()), (DnTypeSpec::C, StrKind::Printable, "FR".into())]);
+    st.serial = Some(vec![0xa2]);
     st
 }
 
@@ -104,8 +116,9 @@ pub fn world(zoo: &[ZooKey]) -> World {
     let big_key = rc_load(big, Alg::RsaSha256).unwrap();
     let ca_a = to_params(&st_a(KeyIdSpec::Sha256)).unwrap().self_signed(&key_a).unwrap();
     let ca_b = to_params(&st_b()).unwrap().self_signed(&key_b).unwrap();
+    let ca_a2 = to_params(&st_a2()).unwrap().self_signed(&key_a).unwrap();
     let csr_der = to_params(&st_csr()).unwrap().serialize_request(&leaf_key).unwrap().der().to_vec();
-    World { key_a, key_b, leaf_key, big_key, ca_a, ca_b, csr_der, rsa_der: l.der.clone() }
+    World { key_a, key_b, leaf_key, big_key, ca_a, ca_b, ca_a2, csr_der, rsa_der: l.der.clone() }
 }
 
 /// Execute operation `i`; returns the complete output bytes (all signatures here are deterministic:
@@ -152,6 +165,12 @@ pub fn exec(w: &World, i: usize) -> Result<Vec<u8>, String> {
                 out
             }
             13 => to_params(&st_leaf())?.signed_by(&w.big_key, &w.ca_a, &w.key_a).map_err(e)?.der().to_vec(),
+            16 => to_params(&st_a2())?.self_signed(&w.key_a).map_err(e)?.der().to_vec(),
+            17 => to_params(&st_leaf())?.signed_by(&w.leaf_key, &w.ca_a2, &w.key_a).map_err(e)?.der().to_vec(),
+            18 => {
+                let st = CrlState { revoked: vec![RevokedSpec { serial: vec![9], time: TimeSpec::ymd(2023, 5, 5), reason: Some(1), invalidity: None }], ..CrlState::default() };
+                to_crl_params(&st)?.signed_by(&w.ca_a2, &w.key_a).map_err(e)?.der().to_vec()
+            }
             _ => {
                 let mut st = st_a(KeyIdSpec::Sha256);
                 st.ekus = vec![EkuSpec::ServerAuth, EkuSpec::ClientAuth, EkuSpec::CodeSigning, EkuSpec::ServerAuth, EkuSpec::OcspSigning, EkuSpec::ClientAuth];
@@ -265,6 +284,7 @@ fn interception_audit() -> serde_json::Value {
 #[cfg(feature = "crypto")]
 pub fn run(prop: &str, tier: &str, replay: Option<&str>) -> i32 {
     run::set_replay(replay);
+    run::HISTORY_IS_THE_SUBJECT.store(true, std::sync::atomic::Ordering::Relaxed);
     let thorough = tier == "thorough";
     let mut rep = Report::new(prop, tier);
     rep.assume("all keys in the history and schedule harnesses are Ed25519 or RSA PKCS#1 v1.5, so complete outputs (not only TBS) must be identical");
@@ -289,7 +309,7 @@ pub fn run(prop: &str, tier: &str, replay: Option<&str>) -> i32 {
         let depth = if thorough { 4 } else { 3 };
         let sec = Section::new(&format!("histories/depth<={}", depth), &format!("every sequence of <= {} operations over {} operations on shared keys and issuers (thorough: also every sequence of 5 over the 9 operations that do not sign with RSA); the output of the last operation must equal the output of the same operation executed first in a fresh process", depth, N_OPS));
         let mut hist: Vec<usize> = Vec::new();
-        const CHEAP: [usize; 9] = [0, 1, 2, 6, 7, 8, 9, 10, 11];
+        const CHEAP: [usize; 11] = [0, 1, 2, 6, 7, 8, 9, 10, 11, 16, 18];
         fn rec(w: &World, sec: &Section, refs: &[String], hist: &mut Vec<usize>, left: usize) {
             rec_over(w, sec, refs, hist, left, &(0..N_OPS).collect::<Vec<_>>(), 0)
         }
